@@ -53,7 +53,8 @@ pub enum TState {
     Runnable,
     /// Waits for a resource.
     Blocked(Res),
-    /// Waits for a resource, but with a timeout: woken (with the timeout result) only when nothing else can run.
+    /// Waits for a resource, but with a timeout: the scheduler may let the timeout elapse at any scheduling point
+    /// (a bounded number of times per execution), and does so when nothing else can run.
     TimedBlocked(Res),
     /// The thread's closure has returned or unwound.
     Finished,
@@ -76,8 +77,10 @@ pub struct ThreadInfo {
 
 /// A scheduling decision offered to the chooser: more than one thread could run next.
 pub struct Choice<'a> {
-    /// Runnable controlled threads, ascending.
+    /// Controlled threads that can be given the token, ascending (includes `timed`).
     pub runnable: &'a [usize],
+    /// The members of `runnable` that are in a timed wait: picking one lets its timeout elapse.
+    pub timed: &'a [usize],
     /// The thread that ran up to this point, if it can continue (choosing another one is a pre-emption).
     pub current: Option<usize>,
     /// Index of this choice point within the execution.
@@ -87,8 +90,10 @@ pub struct Choice<'a> {
 /// One recorded choice point.
 #[derive(Clone, Debug)]
 pub struct Step {
-    /// Runnable controlled threads, ascending.
+    /// Controlled threads that could have been given the token, ascending (includes `timed`).
     pub runnable: Vec<usize>,
+    /// The members of `runnable` that were in a timed wait.
+    pub timed: Vec<usize>,
     /// The running thread if it could have continued.
     pub current: Option<usize>,
     /// The thread that was given the token.
@@ -211,18 +216,12 @@ impl Sched {
     fn pick_next(&self, st: &mut State, me: usize, op: &'static str) {
         st.last_progress = Instant::now();
         let mut runnable: Vec<usize> = (0..st.threads.len()).filter(|&i| st.threads[i].state == TState::Runnable).collect();
-        if runnable.is_empty() {
-            // timeouts fire only when nothing else can happen
-            if st.timeouts_left > 0 {
-                if let Some(i) = (0..st.threads.len()).find(|&i| matches!(st.threads[i].state, TState::TimedBlocked(_))) {
-                    st.timeouts_left -= 1;
-                    st.threads[i].state = TState::Runnable;
-                    st.threads[i].timed_out = true;
-                    runnable.push(i);
-                }
-            }
-        }
-        if runnable.is_empty() {
+        let timed: Vec<usize> = if st.timeouts_left > 0 {
+            (0..st.threads.len()).filter(|&i| matches!(st.threads[i].state, TState::TimedBlocked(_))).collect()
+        } else {
+            Vec::new()
+        };
+        if runnable.is_empty() && timed.is_empty() {
             if st.threads[0].state == TState::Blocked(Res::Drain) {
                 st.threads[0].state = TState::Runnable;
                 st.drained = true;
@@ -233,6 +232,8 @@ impl Sched {
             }
             return;
         }
+        runnable.extend(timed.iter().copied());
+        runnable.sort_unstable();
         st.steps += 1;
         if st.steps > st.max_steps {
             self.finish(st, End::StepLimit);
@@ -243,14 +244,20 @@ impl Sched {
             runnable[0]
         } else {
             let index = st.trace.len();
-            let c = (st.chooser)(&Choice { runnable: &runnable, current, index });
+            let c = (st.chooser)(&Choice { runnable: &runnable, timed: &timed, current, index });
             if !runnable.contains(&c) {
                 self.finish(st, End::BadChoice);
                 return;
             }
-            st.trace.push(Step { runnable: runnable.clone(), current, chosen: c, op });
+            st.trace.push(Step { runnable: runnable.clone(), timed: timed.clone(), current, chosen: c, op });
             c
         };
+        if timed.contains(&chosen) {
+            // the timeout of `chosen` elapses
+            st.timeouts_left -= 1;
+            st.threads[chosen].state = TState::Runnable;
+            st.threads[chosen].timed_out = true;
+        }
         st.current = chosen;
         if chosen != me {
             st.threads[chosen].cv.notify_all();
@@ -384,7 +391,7 @@ where
             trace: Vec::new(),
             chooser,
             drained: false,
-            timeouts_left: 64,
+            timeouts_left: 16,
             last_progress: Instant::now(),
         }),
         cv: Condvar::new(),
